@@ -284,3 +284,82 @@ R.contract(
     replayable=False,
 )
 
+
+# ------------------------------------------------------------------------------------------------- unit test_func: one case = recorded, sent with the engine's transport settings, recorded again, validated
+def _undecorated(name):
+    def setup(it):
+        from pyvc.extract import load_module
+
+        mod = load_module("schemathesis.engine.phases.unit._executor")
+        node = mod.defs[name]
+        from pyvc.values import VFunc
+
+        return VFunc(node, mod, None, name), {}  # the function body itself (its decorator, cached_test_func, has its own contract)
+
+    return setup
+
+
+R.exception_classes["Timeout"] = "OSError"
+R.exception_classes["ConnectionError"] = "OSError"
+R.extern["requests.Timeout"] = lambda it, a, k: it.resolve_exc_class("Timeout", None)
+R.extern["requests.ConnectionError"] = lambda it, a, k: it.resolve_exc_class("ConnectionError", None)
+
+
+def _case_call(it, obj, a, k):
+    from pyvc.interp import PyExc
+
+    it.ghost["log"] = it.ghost["log"] + [("call", dict(k))]
+    outcome = it.path.choose([("ok", True), ("Timeout", True), ("ConnectionError", True)], "network")
+    if outcome == "ok":
+        r = fresh_opaque(it, "ResponseRef")
+        it.ghost["response"] = r
+        return r
+    exc = it.make_exc(it.resolve_exc_class(outcome, None), ())
+    exc.fields["request"] = fresh_opaque(it, "UnsentRequest")
+    it.ghost["network_error"] = exc
+    raise PyExc(exc)
+
+
+R.nominal_methods["spec:SentUnitCase"] = {"call": _case_call}
+
+
+def _rec(name):
+    return lambda it, obj, a, k: it.ghost.__setitem__("log", it.ghost["log"] + [(name, dict(k))])
+
+
+R.nominal_methods["spec:UnitRecorder"] = {"record_case": _rec("record_case"), "record_response": _rec("record_response"), "record_request": _rec("record_request")}
+R.nominal_methods["spec:UnitEngineCtx"] = {"get_check_context": lambda it, obj, a, k: ("check-context-of", a[0])}
+_vr = R.contracts[UEX_ + "validate_response"]
+_vr.returns = NoneT
+_vr.effects = {"log": "ghost('log') + [('validate', {'case': case, 'ctx': ctx, 'checks': checks, 'response': response, 'continue_on_failure': continue_on_failure, 'recorder': recorder})]"}
+_vr.call_ensures = {}
+_vr.call_raises_ensures = {}
+_vr.requires_are_representation_invariant = True
+R.contract("schemathesis.generation.targets:run", args={"targets": Opq("Any"), "case": Opq("Any"), "response": Opq("Any")}, returns=NoneT, trusted=True, note="feeds hypothesis.target metrics")
+TK = Opq("TransportKwargsRef")
+R.contract(
+    UEX_ + "test_func",
+    prop="C05",
+    setup=_undecorated("test_func"),
+    args={"ctx": Obj("spec:UnitEngineCtx", transport_kwargs=DictOf(optional={"session": Opq("SessionRef"), "headers": Opq("ConfiguredHeaders"), "timeout": Int}),
+                     config=Obj("spec:UCfg", execution=Obj("spec:UExec", targets=Opq("Targets"), checks=Opq("ConfiguredChecks"), continue_on_failure=Bool))),
+          "case": Obj("spec:SentUnitCase", id=Str), "recorder": Obj("spec:UnitRecorder")},
+    ghost={"log": [], "response": None, "network_error": None},
+    raises=["Timeout", "ConnectionError", "FailureGroup"],
+    ensures={
+        # the case is recorded BEFORE it is sent (so a crash while sending still has its case), sent with the engine's transport settings (session, configured headers ...: C14),
+        # its response recorded, and then validated with the configured checks
+        "recorded_sent_with_the_engines_settings_recorded_validated": "[x[0] for x in ghost('log')] == ['record_case', 'call', 'record_response', 'validate'] and "
+            "ghost('log')[0][1]['case'] is case and ghost('log')[1][1] == ctx.transport_kwargs and ghost('log')[2][1]['response'] is ghost('response') and ghost('log')[2][1]['case_id'] == case.id",
+        "validated_with_the_configured_checks_against_this_response": "ghost('log')[3][1]['case'] is case and ghost('log')[3][1]['response'] is ghost('response') and "
+            "ghost('log')[3][1]['checks'] is ctx.config.execution.checks and same_b(ghost('log')[3][1]['continue_on_failure'], ctx.config.execution.continue_on_failure) and "
+            "ghost('log')[3][1]['recorder'] is recorder and ghost('log')[3][1]['ctx'] == ('check-context-of', recorder)",
+    },
+    raises_ensures={
+        # a network error is never swallowed: it propagates (run_test turns it into an ERROR scenario), with the case on record
+        "a_network_error_propagates_with_the_case_on_record": "implies(raised in ('Timeout', 'ConnectionError'), ghost('network_error') is not None and ghost('log')[0][0] == 'record_case' and ghost('log')[1][0] == 'call')",
+    },
+    replayable=False,
+)
+R.spec_funcs["same_b"] = lambda it, a, b: __import__("pyvc.ops", fromlist=["eq"]).eq(a, b)
+
